@@ -59,6 +59,7 @@ def run(ctx):
 NODE = "cartgraph/node.py"
 G = "cartgraph/graph.py"
 MUTANTS = [
+    ("clone-source-unmarked-when-all-reused", G, "            # NOTE: the graph and node index are purely additive and node could be parsed again\n            clone_source.clone_as_source(clones)", "            if len(new_clones) == 0:\n                continue\n            clone_source.clone_as_source(clones)", "10g"),
     ("reused-clones-registered-again", G, "                self.new_nodes(new_clones)", "                self.new_nodes(clones)", "10"),
     ("reused-clones-returned-again", G, "                test_nodes.extend(new_clones)", "                test_nodes.extend(clones)", "10"),
     ("one-sided-edge", NODE, "        self._setup_nodes[test_node] = self._setup_nodes.get(test_node, set()) | {\n            test_object\n        }\n",
